@@ -164,6 +164,12 @@ pub fn check(env: &Env, c: &Case, st: &mut Stats) -> CaseResult {
         }
     }
     spellings.push((product_text(&d), "base_product"));
+    // "any expression of that dimensionality": the same product beside a foreign base unit to the power
+    // zero, and times and divided by a foreign base unit (both contribute nothing to the dimensionality)
+    if let Some(x) = ["kg", "s", "m", "A", "K", "mol", "cd", "bit"].iter().find(|x| !d.contains_key(**x) && r.base_units.contains(**x)) {
+        spellings.push((format!("({}^0) {}", x, product_text(&d)), "zero_power_factor"));
+        spellings.push((format!("({}) {} / {}", product_text(&d), x, x), "cancelled_factor"));
+    }
     let want = expected_units(env, &d);
     let nontrivial = d.len() >= 2 || d.values().any(|e| e.abs() >= 2);
     let mut first_units: Option<(String, Vec<(Option<String>, Vec<String>)>)> = None;
